@@ -624,6 +624,13 @@ func (o *c16) Step(r *StepRec) []Violation {
 			if !ok {
 				continue
 			}
+			// the owning module may kill / pause the context from inside this expiry's response callback
+			if react := reactionIn(r, q.Ctx); react == "kill" && rc.State == stRunning {
+				rc.State = stCompleted
+				o.hit("killed_by_its_module_at_expiry")
+			} else if react == "pause" && rc.State == stRunning {
+				rc.State = stPaused
+			}
 			finished := !rc.Repeated || rc.State == stCompleted ||
 				(rc.State == stRunning && rc.RepeatedTotal > 0 && int64(rc.BatchCounter) >= rc.RepeatedTotal)
 			_, alive := post.Ctxs[q.Ctx]
@@ -677,4 +684,14 @@ func (o *c16) NonTrivial() bool {
 		}
 	}
 	return n >= 2
+}
+
+// reactionIn: what the context's module did to it (successfully) from inside a response callback of this step
+func reactionIn(r *StepRec, ctxID string) string {
+	for _, cb := range r.CBs {
+		if cb.Ctx == ctxID && cb.React != "" && cb.ReactOK {
+			return cb.React
+		}
+	}
+	return ""
 }
